@@ -290,7 +290,20 @@ func (w *World) Enabled() []Op {
 				// the shim batches "task created" and "task cancelled" of the same task into one update
 				add(Op{K: "ASK_RELEASE", A: a.Key})
 			}
-		} else if ks, ok := m.Keys[a.Key]; ok {
+		} else if _, known := m.Keys[a.Key]; !known && a.BoundNode == "" && !m.Reused[a.Key] {
+			// the first use of the key is over for the shim (released and confirmed, or withdrawn): a new task may carry
+			// the same key (once)
+			busy := false
+			for _, p := range m.Pending {
+				if p.Key == a.Key {
+					busy = true
+				}
+			}
+			if !busy {
+				add(Op{K: "ASK_AGAIN", A: a.Key})
+			}
+		}
+		if ks, ok := m.Keys[a.Key]; ok && m.Used[a.Key] {
 			if len(a.Resize) > 0 && !m.Resized[a.Key] && (ks.State == "ask" || ks.State == "bound") {
 				add(Op{K: "ASK_RESIZE", A: a.Key})
 			}
@@ -675,6 +688,11 @@ func (w *World) Apply(op Op) *Step {
 		a := s.Ask(op.A)
 		f = func() { w.sendAlloc([]*si.Allocation{w.askToSI(a, a.Res, "")}, nil) }
 		m.Used[a.Key] = true
+		m.Keys[a.Key] = &KeyState{App: a.App, State: "ask", Ph: a.Placeholder}
+	case "ASK_AGAIN":
+		a := s.Ask(op.A)
+		f = func() { w.sendAlloc([]*si.Allocation{w.askToSI(a, a.Res, "")}, nil) }
+		m.Reused[a.Key] = true
 		m.Keys[a.Key] = &KeyState{App: a.App, State: "ask", Ph: a.Placeholder}
 	case "ASK_RELEASE":
 		// one AllocationRequest that carries the new ask and the release of the same key: after it the shim has no
